@@ -11,7 +11,7 @@ from symx.bind import bind, unbind
 
 
 class World:
-    def __init__(self, eng, universe, cache_rel='cache', sandbox=None, fixed=None):
+    def __init__(self, eng, universe, cache_rel='cache', sandbox=None, fixed=None, perm_listdir=False):
         """universe: relative paths, parent-first, each symbolic (kind, cid,
         mtime).  fixed: {rel: 'D' | ('F', cid_name)} concrete initial nodes."""
         self.eng = eng
@@ -27,6 +27,7 @@ class World:
             self.fs = ModelFS(eng, self.root)
             self.env = ModelEnv(self.fs)
         self.cache = self.p(cache_rel)
+        self.env.perm_listdir = bool(perm_listdir)
         self.vars = {}
         for rel, spec in (fixed or {}).items():
             self._add_fixed(rel, spec)
